@@ -153,7 +153,61 @@ META = {
         explanation="Deductive: parse_varbyte_as_int, parse_track_header, tempo round trip lemma, VLQ inverse through the two "
                     "contracts. Bounded: MIDI_to_Composition round trip via bounded/drivers/C17.py.",
     ),
+    "C11": dict(
+        claimed=True, level="other",
+        technique="contract-based deductive verification of Note.transpose and the octave operations; container-level lifting by bounded driver",
+        level_text="Proved: Note.transpose for every unmixed name with up to FOUR accidentals (the statement asks for two), every "
+                   "octave, every shorthand with up to two accidentals whose size is 0..11, up and down: pitch number moves by "
+                   "exactly the size, the letter is the one the interval number requires, the accidental count is exact, and the "
+                   "octave is adjusted; up-then-down restores name and octave (lemma, executed through the real transpose body); "
+                   "change_octave/octave_up/octave_down never go below 0; Note.augment/diminish move the pitch by one and keep the "
+                   "letter. NOT proved: that NoteContainer/Bar/Track transpose/augment/diminish apply the note operation to every "
+                   "note and leave rests, durations and beats untouched (loops over heap lists of objects) - bounded driver.",
+        level_note=TB + " Object parameters are assumed distinct objects.",
+        explanation="Deductive: Note.transpose, change_octave, octave_up, octave_down, augment, diminish, lemma c11_up_then_down. "
+                    "Bounded: container-level lifting via bounded/drivers/C11.py.",
+    ),
+    "C18": dict(
+        claimed=True, level="other",
+        technique="contract-based deductive verification with a ghost event trace for the per-call clauses; playback of bars/tracks by bounded driver",
+        level_text="Proved (hooks and listener delivery modelled as one ghost-trace record each): control_change refuses exactly "
+                   "numbers/values below 0 or above 128 and then emits NOTHING, otherwise exactly one cc event and one "
+                   "notification; modulation/main_volume/pan; set_instrument; play_Note / stop_Note emit exactly one play / stop "
+                   "event with pitch+12 and the note's own channel and velocity followed by the INT and NOTE notifications; "
+                   "SequencerObserver.notify calls exactly the callback of each of the 14 message types with the parameters sent "
+                   "and ignores unknown types; attach twice / detach and 'every listener, in order, same message' on the real "
+                   "attach/detach/notify_listeners bodies (lemma). NOT proved: play_NoteContainer/Bar/Bars/Track/Tracks/"
+                   "Composition (balanced, ordered, timed streams; parallel scheduler on floats) - bounded driver.",
+        level_note=TB + " Ghost trace: the five subclass hooks, notify_listeners (in the per-call contracts) and the observer "
+                        "callbacks are abstract and modelled as appending one record.",
+        explanation="Deductive: control_change, modulation, main_volume, pan, set_instrument, play_Note, stop_Note, "
+                    "SequencerObserver.notify, lemma c18_every_listener_in_order. Bounded: bounded/drivers/C18.py.",
+    ),
+    "C19": dict(
+        claimed=True, level="other",
+        technique="contract-based deductive verification of the note-level LilyPond encoder (quantified loop invariants); everything above it by independent decoders (bounded)",
+        level_text="Proved for EVERY valid name (any accidentals) and EVERY octave, with three quantified loop invariants and "
+                   "variants (termination): lilypond.from_Note yields the lower-case letter, then 'is' per sharp / 'es' per flat "
+                   "in order, then one ' per octave above 3 or one , per octave below 3 (none when octaves are not processed), "
+                   "wrapped in braces iff standalone. NOT proved: from_NoteContainer/Bar/Track/Composition and all of MusicXML "
+                   "(value analysis, tuplet state machine, xml.dom.minidom object graphs) - independent LilyPond-subset and XML "
+                   "readers over systematic and seeded containers (bounded driver).",
+        level_note=TB,
+        explanation="Deductive: lilypond.from_Note. Bounded: bounded/drivers/C19.py.",
+    ),
+    "C20": dict(
+        claimed=True, level="other",
+        technique="contract-based deductive verification of the fret arithmetic; fingering search and tablature by brute-force specification and an independent tab reader (bounded)",
+        level_text="Proved, for ARBITRARY open-string notes, note and maxfret, on every tuning shape with 1..3 strings and every "
+                   "shape occurring among the 76 registered tunings (3..6 strings, courses of 2 or 3): find_frets reports the "
+                   "semitone distance from the open string when it lies in 0..maxfret and None otherwise, one entry per string; "
+                   "get_Note returns the open string raised by fret semitones and records string and fret, and raises the range "
+                   "error exactly for out-of-range strings or frets; count_strings. NOT proved: find_fingering, "
+                   "find_chord_fingering, registry lookup and all ASCII tablature (recursive search, string layout) - bounded driver.",
+        level_note=TB,
+        explanation="Deductive: StringTuning.find_frets, get_Note, count_strings. Bounded: bounded/drivers/C20.py.",
+    ),
 }
 
 _NOT_YET = "not yet brought under contract in this build step (see DESIGN.md §9 for the plan); nothing is claimed"
-NOT_APPLICABLE = dict(("C%02d" % i, _NOT_YET) for i in [7, 8, 11, 12, 13, 14, 15, 18, 19, 20])
+NOT_APPLICABLE = dict(("C%02d" % i, _NOT_YET) for i in [7, 8, 12, 13, 14, 15])
